@@ -8,7 +8,10 @@ under one consumer-lag schedule, optionally with suspend/resume + attach of a fr
 
 Oracles (per property; a run evaluates the oracles of its own property, plus cheap ones)
 
-C35  whenever the video backlog is empty: reference canvas == Session.get_pixels() and reference
+C35  (histories include Ctrl+Break through the input queue at a seeded poll inside PAINT / between the
+     statements of drawing and printing loops, stored programs with CONT, LIST; and line editing on
+     long wrapped lines that cross a VIEW PRINT window edge)
+     whenever the video backlog is empty: reference canvas == Session.get_pixels() and reference
      text grid == Session.get_chars(str) (visible page); printable-ASCII agreement between
      get_chars(bytes) and get_chars(str); after suspend/resume a fresh display shows the same
      picture, palette, border and (when visible) cursor as the old display did.
@@ -24,18 +27,29 @@ C36  CSRLIN/POS inside the screen; CSRLIN/POS equal to the reference model's lan
      one, on every page switch, and in 'pages' sweeps that visit every page with SCREEN ,,p,p)
      and with SCREEN(r,c) on the active page, also while that page is hidden.  A page never seen
      since the last mode change has no reference yet: its first reading is taken on trust.
+     A failed statement changes nothing: LOCATE (each argument legal / illegal / left out) run from
+     a stored program with the error trapped leaves CSRLIN/POS as they were and the placement model
+     carries on (a bare PRINT right after it scrolls or advances as it would have); untrapped, the
+     error message is ordinary output - it keeps the cursor inside the scroll area and leaves the
+     rows outside it unchanged.
 C30  for every graphics statement: before/after snapshot of all pages; graphics mode: changes only
      on the active page and only inside the viewport that was current when the statement started
      (VIEW itself draws its fill and border with the viewport unset, so only the page is judged
      for it); reference display unchanged while the active page is hidden; text mode: error 5 and
      nothing (pixels of any page, characters, cursor) changes.  The statement is run from a stored
      three-line program with ON ERROR GOTO so that no error message is printed on the screen
-     (a direct-mode error message is itself text/pixels on the active page).
+     (a direct-mode error message is itself text/pixels on the active page).  A failed statement
+     (other than DRAW, which keeps what it drew before the faulty command) changes no pixel on any
+     page and leaves the coordinate mapping (PMAP, i.e. viewport and window) as it was - so drawing
+     after a failed VIEW is still judged against the old viewport; a failed VIEW/WINDOW also leaves
+     the last point (POINT(0), POINT(1)).  VIEW with fill and border left out changes no pixel; its
+     fill stays inside the new viewport, its border inside the one-pixel frame around it.
 
 Deliberately left out (property silent or corner unspecified): exact effect of control
 characters, PRINT zones, key bar contents, a PRINT newline issued in the column-80 overflow state
 (one or two line advances), strings that do not fit the rest of the line when not starting in
-column 1, LOCATE with omitted coordinates, cursor position after a failed LOCATE, anything
+column 1, LOCATE with omitted coordinates, whether a statement that takes a point moves the last
+point before it fails, anything
 written while the cursor is below the scroll window (row 25).  In those cases the model is
 re-synchronised from get_chars/CSRLIN/POS and only the invariants are checked.
 Pages: which page numbers are valid (SCREEN ,,a,v and PCOPY may fail with any error for any number;
@@ -173,7 +187,15 @@ def _gfx_stmt(rng, gm, tier):
     if r < 0.58:
         rad = rng.choice([0, 1, 5, 20, 50, 100, 200, rng.randint(1, 400), rng.randint(200, 1500 if tier == 'quick' else 4000)])
         s = 'CIRCLE %s%s,%d' % (step, _pt(rng, gm), rad)
-        if rng.random() < 0.6:
+        if rng.random() < 0.12:
+            # very small circles and ellipses with sectors (lines to the centre) and explicit aspect
+            s = 'CIRCLE %s%s,%d,%d,%s,%s' % (
+                step, _pt(rng, gm), rng.randint(0, 6), _attr(rng),
+                rng.choice(['', '-%.2f' % rng.uniform(0.01, 6.28), '-%.2f' % rng.uniform(0.01, 6.28), '%.2f' % rng.uniform(0, 6.28)]),
+                rng.choice(['', '-%.2f' % rng.uniform(0.01, 6.28), '%.2f' % rng.uniform(0, 6.28)]))
+            if rng.random() < 0.7:
+                s += ',%s' % rng.choice(['1', '1', '.5', '2', '.8333', '.1', '10'])
+        elif rng.random() < 0.6:
             s += ',%d' % _attr(rng)
             if rng.random() < 0.4:
                 a0 = rng.choice(['', '0', '1.5', '-1', '3.1', '-4.5', '6.28'])
@@ -360,6 +382,34 @@ def _print_op(rng, hint, plain_only=False, dbcs=False):
         else:
             parts.append(''.join(chr(rng.randint(128, 255)) for _ in range(rng.randint(1, 8))))
     return {'op': 'print', 's': ''.join(parts)[:110], 'end': end}
+
+
+def _edge_print_ops(rng, hint, dbcs):
+    """LOCATE near the right edge, then text that ends at, one short of or one past the last column."""
+    w = hint.width
+    col = rng.randint(max(1, w - 8), w)
+    row = rng.choice([1, 2, 24, 25, rng.randint(1, 24), rng.randint(1, 24)])
+    k = max(1, w - col + 1 + rng.choice([0, 0, 0, -1, 1]))
+    if dbcs and rng.random() < 0.75:
+        # few characters, so that the same ones come back alone, as lead and as trail of a pair
+        abc = [rng.choice(PLAIN[31:]) for _ in range(3)]
+        parts = []
+        while len(''.join(parts)) < k:
+            if rng.random() < 0.5:
+                parts.append(rng.choice(abc))
+            else:
+                parts.append(chr(rng.randint(0x81, 0xfe)) + rng.choice(abc))
+        s = ''.join(parts)[:k]
+        pre = ''.join(rng.choice(abc) if rng.random() < 0.5 else chr(rng.randint(0x81, 0xfe)) + rng.choice(abc)
+                      for _ in range(rng.randint(0, 4)))
+        ops = []
+        if pre:
+            ops.append({'op': 'print', 's': pre, 'end': ';'})
+        ops.append({'op': 'locate', 'r': row, 'c': col, 'cur': None})
+        ops.append({'op': 'print', 's': s, 'end': rng.choice([';', ';', ''])})
+        return ops
+    return [{'op': 'locate', 'r': row, 'c': col, 'cur': None},
+            {'op': 'print', 's': _plain(rng, k), 'end': rng.choice([';', ';', ''])}]
 
 
 def _locate_op(rng, hint):
@@ -716,6 +766,9 @@ def gen(rng, tier, prop):
                 op = _print_op(rng, hint, dbcs=dbcs)
                 if rng.random() < 0.25:
                     op = {'op': 'scrollburst', 'n': rng.randint(2, 30), 's': _plain(rng, rng.randint(0, 12))}
+                elif rng.random() < (0.4 if dbcs else 0.15):
+                    ops.extend(_edge_print_ops(rng, hint, dbcs))
+                    continue
                 ops.append(op)
             elif r < 0.42:
                 ops.append(_color_op(rng, hint))
@@ -1442,9 +1495,7 @@ def _drain_and_compare(c, label):
             if bad:
                 tag = disp.tag_at(y, x)
                 if c.lineclear_in_window:
-                    # input shape of a known class: the line editor cleared a logical line (Esc, Ctrl+End)
-                    # while a VIEW PRINT window was set (the line may reach below the window)
-                    tag += ':after-line-clear-with-view-print-active'
+                    tag += c.lineclear_in_window
                 run.violate('C35', 'chars:' + tag,
                             'row=%d col=%d: get_chars() reports %r, the display shows %r (get_chars(unicode) %r); '
                             'cell last touched by %s; mode %r %s' % (y + 1, x + 1, cb, cu, tx[y][x], tag, disp.mode, where))
@@ -1982,8 +2033,14 @@ def _run_with_keys(c, keys, fn, quit_at_prompt, poll_cap=8000):
 
 
 def _note_line_clear(c, keys):
+    """Input shapes of known classes of line editor defects (they go into the signature)."""
     if c.tm.win_active and ('\x1b' in keys or '\x05' in keys):
-        c.lineclear_in_window = True
+        # the line editor clears a logical line (Esc, Ctrl+End) while a VIEW PRINT window is set
+        # (the line may reach below the window)
+        c.lineclear_in_window = ':after-line-clear-with-view-print-active'
+    if '\n' in keys and c.tm.h is not None and getattr(c, 'last_cursor', (0, 0))[0] > c.tm.bottom:
+        # line feed (Ctrl+J) in the line editor with the cursor below the scroll area (row 25)
+        c.lineclear_in_window = ':after-line-feed-below-the-scroll-area'
 
 
 def _h_typed(c, op):
